@@ -20,6 +20,10 @@ def call(kind, n):
         # two rows of the given length
         row = "(row%s)" % "".join(" (val i:i32:%d)" % (k + 1) for k in range(n))
         return "(valuesfrompanic %s %s)" % (row, row)
+    if kind == "vfpr":
+        # a batch of two rows of DIFFERENT lengths (n = (first, second)): every row is checked, not only the first
+        rows = ["(row%s)" % "".join(" (val i:i32:%d)" % (k + 1) for k in range(m)) for m in n]
+        return "(valuesfrompanic %s)" % " ".join(rows)
     if kind == "selectfrom":
         return "(selectfrom (select%s (from (t 75))))" % "".join(" (col (col %s))" % hexs(c) for c in COLS[:n])
     if kind == "ordefault":
@@ -32,7 +36,8 @@ def call(kind, n):
 ALPHABET = ([("columns", n) for n in range(0, 4)] + [("values", n) for n in range(0, 4)] +
             [("valuesit", n) for n in range(0, 4)] + [("valuespanicit", n) for n in range(1, 3)] +
             [("valuespanic", n) for n in range(0, 3)] + [("selectfrom", n) for n in range(1, 4)] +
-            [("valuesfrompanic", 2), ("ordefault", 0), ("ordefaultmany", 2)])
+            [("valuesfrompanic", 2), ("ordefault", 0), ("ordefaultmany", 2)] +
+            [("vfpr", (2, 1)), ("vfpr", (2, 3)), ("vfpr", (1, 2)), ("vfpr", (2, 0)), ("vfpr", (1, 1))])
 HIST = {}
 SRC = [None]
 
@@ -91,6 +96,12 @@ def simulate(h):
             has_source = True
             accept_row(n)
             accept_row(n)
+        elif k == "vfpr":
+            for m in n:
+                if m != ncols:
+                    return log, True, recolumn
+                has_source = has_source or m > 0
+                accept_row(m)
         elif k == "selectfrom":
             if n == ncols:
                 log.append("ok")
